@@ -876,5 +876,9 @@ def main(argv):
         "double literals of the tables are read exactly (hex float -> dyadic rational)",
         "rounding of the double instantiation is covered by the tolerance 2^-40 of the exactness statements; the "
         "structural theorems (tensor, refine) are about exact arithmetic (the Q instantiation)",
-        "rule names are byte strings < 128 (tolower/whitespace of the C locale)"],
+        "rule names are byte strings < 128 (tolower/whitespace of the C locale)",
+        "ONE tolerance for every nominal-degree check, Lean and oracle alike: |sum w_i x_i^e - I(e)| <= 2^-40 "
+        "(C14.momentOK_iff_rat / C14.tables_exact_rat); Gauss-type tables are the rounded doubles of the source",
+        "refinement theorem kernel-checked up to degree 39 (lines), 20 (triangles), 8 (tetrahedra), 16 (squares), "
+        "8 (cubes); beyond that (squares/cubes) only the exactq stream and the oracle"],
         extra_cov=dict(gen_info, rule=rule))
